@@ -425,3 +425,174 @@ Proof.
   - destruct (chunks_of_views m cs') as [ks'|] eqn:E'; [|reflexivity].
     destruct (chunks_of_views_perm m cs' cs (Permutation_sym P) ks' E') as (ks & E2 & _). congruence.
 Qed.
+
+(* ------------------------------------------------------------------ C11 for the composed model *)
+Theorem e2e_build_perm_invariant m run banks banks' order order' :
+  Forall bytes (map snd banks) -> Permutation banks banks' -> is_order order -> is_order order' ->
+  is_ok (try_from_banks_model m run banks order) = is_ok (try_from_banks_model m run banks' order') /\
+  (forall ev ev', try_from_banks_model m run banks order = Ok ev ->
+                  try_from_banks_model m run banks' order' = Ok ev' -> ev_eq ev ev').
+Proof.
+  intros H P O O'. unfold try_from_banks_model.
+  apply build_perm_invariant_lemma; auto using e2e_env_typed_m, e2e_banks_typed_m, e2e_wire_pos_injective, e2e_reasm_perm.
+  unfold decode_banks_m. apply Permutation_map. exact P.
+Qed.
+Theorem e2e_group_order_irrelevant m run banks order order' :
+  Forall bytes (map snd banks) -> is_order order -> is_order order' ->
+  is_ok (try_from_banks_model m run banks order) = is_ok (try_from_banks_model m run banks order') /\
+  (forall ev ev', try_from_banks_model m run banks order = Ok ev ->
+                  try_from_banks_model m run banks order' = Ok ev' -> ev_eq ev ev').
+Proof.
+  intros H O O'. unfold try_from_banks_model.
+  apply group_order_irrelevant_lemma; auto using e2e_env_typed_m, e2e_banks_typed_m, e2e_wire_pos_injective.
+Qed.
+
+(* ------------------------------------------------------------------ C10 for the composed model *)
+Theorem e2e_build_sound m run banks order ev : Forall bytes (map snd banks) -> is_order order ->
+  try_from_banks_model m run banks order = Ok ev ->
+  event_spec fcal64 (env_e2e_m m run) (decode_banks_m m banks) ev.
+Proof.
+  intros H O B. eapply build_sound; eauto using e2e_env_typed_m, e2e_banks_typed_m.
+Qed.
+Theorem e2e_build_spec_iff m run banks ev : Forall bytes (map snd banks) ->
+  ((exists order ev', is_order order /\ try_from_banks_model m run banks order = Ok ev' /\ ev_eq ev' ev) <->
+   event_spec fcal64 (env_e2e_m m run) (decode_banks_m m banks) ev).
+Proof.
+  intros H. unfold try_from_banks_model.
+  apply build_spec_iff_lemma; auto using e2e_env_typed_m, e2e_banks_typed_m, e2e_wire_pos_injective.
+Qed.
+
+Lemma in_decoded m banks n d : In (n, d) banks -> In (decode_bank_m m n d) (decode_banks_m m banks).
+Proof. intros I. unfold decode_banks_m. apply (in_map (fun nd => decode_bank_m m (fst nd) (snd nd)) _ _ I). Qed.
+Lemma decoded_split m l1 l2 l3 x y :
+  decode_banks_m m (l1 ++ x :: l2 ++ y :: l3) =
+  decode_banks_m m l1 ++ decode_bank_m m (fst x) (snd x) :: decode_banks_m m l2 ++ decode_bank_m m (fst y) (snd y)
+    :: decode_banks_m m l3.
+Proof. unfold decode_banks_m. rewrite map_app. cbn [map]. rewrite map_app. reflexivity. Qed.
+
+(* the rejection causes of the property text, on the RAW banks: name bytes and data bytes *)
+Section Rejections.
+Variables (m : ovf) (run : N) (banks : list (list N * list N)) (order : list (list chunkv) -> list (list chunkv)).
+Hypothesis Hb : Forall bytes (map snd banks).
+Hypothesis O : is_order order.
+Notation rejected := (exists k, try_from_banks_model m run banks order = Err k).
+Notation T := (e2e_env_typed_m m run).
+Notation B := (e2e_banks_typed_m m banks Hb).
+Notation E := (env_e2e_m m run).
+Notation D := (decode_banks_m m banks).
+
+Lemma e2e_reject_unknown_name n d : In (n, d) banks -> (forall k, Names.parse_main n <> Ok k) -> rejected.
+Proof.
+  intros I U. apply (reject_unknown_name float fcal64 E m order D T B O).
+  apply (in_decoded m) in I. unfold decode_bank_m in I.
+  destruct (Names.parse_main n) as [k| |]; [exfalso; eapply U; eauto | exact I | exact I].
+Qed.
+Lemma e2e_reject_malformed_wire_payload n d b c : In (n, d) banks -> Names.parse_main n = Ok (Names.KAdc32 b c) ->
+  (forall f, Adc.adc_decode adc_macs m d <> Ok f) -> rejected.
+Proof.
+  intros I P U. apply (reject_malformed_wire float fcal64 E m order D T B O b c).
+  apply (in_decoded m) in I. unfold decode_bank_m, adc_view in I. rewrite P in I.
+  destruct (Adc.adc_decode adc_macs m d) as [f| |]; [exfalso; eapply U; eauto | exact I | exact I].
+Qed.
+Lemma e2e_reject_bv_channel_in_wire_bank n d b c f : In (n, d) banks -> Names.parse_main n = Ok (Names.KAdc32 b c) ->
+  Adc.adc_decode adc_macs m d = Ok f -> Adc.a_chan f < 128 -> rejected.
+Proof.
+  intros I P A L. apply (in_decoded m) in I. unfold decode_bank_m, adc_view in I. rewrite P, A in I.
+  apply (reject_bv_channel float fcal64 E m order D T B O b c (adcv_of f) (Adc.a_chan f) I).
+  unfold adcv_of; cbn [a_chan]. apply N.ltb_lt in L. rewrite L. reflexivity.
+Qed.
+Lemma e2e_reject_wire_channel_mismatch n d b c f : In (n, d) banks -> Names.parse_main n = Ok (Names.KAdc32 b c) ->
+  Adc.adc_decode adc_macs m d = Ok f -> 128 <= Adc.a_chan f -> Adc.a_chan f - 128 <> c -> rejected.
+Proof.
+  intros I P A L Ne. apply (in_decoded m) in I. unfold decode_bank_m, adc_view in I. rewrite P, A in I.
+  apply (reject_channel_mismatch float fcal64 E m order D T B O b c (adcv_of f) (Adc.a_chan f - 128) I); [|exact Ne].
+  unfold adcv_of; cbn [a_chan]. apply N.ltb_ge in L. rewrite L. reflexivity.
+Qed.
+Lemma e2e_reject_wire_board_mismatch n d b c f lg b' : In (n, d) banks -> Names.parse_main n = Ok (Names.KAdc32 b c) ->
+  Adc.adc_decode adc_macs m d = Ok f -> Adc.a_long f = Some lg -> a16_row_of_mac (Adc.al_mac lg) = Some b' -> b' <> b ->
+  rejected.
+Proof.
+  intros I P A L R Ne. apply (in_decoded m) in I. unfold decode_bank_m, adc_view in I. rewrite P, A in I.
+  apply (reject_board_mismatch float fcal64 E m order D T B O b c (adcv_of f) b' I); [|exact Ne].
+  unfold adcv_of; cbn [a_board]. rewrite L. exact R.
+Qed.
+Lemma e2e_reject_duplicate_wire_bank l1 l2 l3 n d1 d2 b c : banks = l1 ++ (n, d1) :: l2 ++ (n, d2) :: l3 ->
+  Names.parse_main n = Ok (Names.KAdc32 b c) -> rejected.
+Proof.
+  intros S P.
+  apply (reject_duplicate_wire float fcal64 E m order D T B O (decode_banks_m m l1) (decode_banks_m m l2)
+           (decode_banks_m m l3) b c (adc_view m d1) (adc_view m d2)).
+  rewrite S, decoded_split. cbn [fst snd]. unfold decode_bank_m. rewrite P. reflexivity.
+Qed.
+Lemma e2e_reject_missing_wire_map n d b c f lg : In (n, d) banks -> Names.parse_main n = Ok (Names.KAdc32 b c) ->
+  Adc.adc_decode adc_macs m d = Ok f -> Adc.a_long f = Some lg -> Adc.al_wave lg <> [] ->
+  (forall w, Maps.wire_position run b c <> Ok w) -> rejected.
+Proof.
+  intros I P A L W U. apply (in_decoded m) in I. unfold decode_bank_m, adc_view in I. rewrite P, A in I.
+  apply (reject_missing_wire_map float fcal64 E m order D T B O b c (adcv_of f) I).
+  - unfold adcv_of; cbn [a_wf]. rewrite L. exact W.
+  - cbn [env_e2e_m wire_pos]. destruct (Maps.wire_position run b c) as [w| |]; [exfalso; eapply U; eauto | |]; reflexivity.
+Qed.
+Lemma e2e_reject_missing_wire_calibration n d b c f lg w : In (n, d) banks -> Names.parse_main n = Ok (Names.KAdc32 b c) ->
+  Adc.adc_decode adc_macs m d = Ok f -> Adc.a_long f = Some lg -> Adc.al_wave lg <> [] ->
+  Maps.wire_position run b c = Ok w -> wire_cal_e2e run w = DErr -> rejected.
+Proof.
+  intros I P A L W Q C. apply (in_decoded m) in I. unfold decode_bank_m, adc_view in I. rewrite P, A in I.
+  apply (reject_missing_wire_calibration float fcal64 E m order D T B O b c (adcv_of f) w I).
+  - unfold adcv_of; cbn [a_wf]. rewrite L. exact W.
+  - cbn [env_e2e_m wire_pos]. rewrite Q. reflexivity.
+  - exact C.
+Qed.
+Lemma e2e_reject_malformed_chunk n d b : In (n, d) banks -> Names.parse_main n = Ok (Names.KPwb b) ->
+  (forall c, Chunk.chunk_decode pwb_devices m d <> Ok c) -> rejected.
+Proof.
+  intros I P U. apply (reject_malformed_chunk float fcal64 E m order D T B O b).
+  apply (in_decoded m) in I. unfold decode_bank_m, chunk_view in I. rewrite P in I.
+  destruct (Chunk.chunk_decode pwb_devices m d) as [c| |]; [exfalso; eapply U; eauto | exact I | exact I].
+Qed.
+Lemma e2e_reject_pad_board_mismatch n d b c : In (n, d) banks -> Names.parse_main n = Ok (Names.KPwb b) ->
+  Chunk.chunk_decode pwb_devices m d = Ok c -> row_or_none (pwb_row_of_dev (Chunk.c_dev c)) <> b -> rejected.
+Proof.
+  intros I P A Ne. apply (in_decoded m) in I. unfold decode_bank_m, chunk_view in I. rewrite P, A in I.
+  apply (reject_pad_board_mismatch float fcal64 E m order D T B O b (chunkv_of d c) I). exact Ne.
+Qed.
+Lemma e2e_reject_malformed_pwb_packet k0 : In k0 (gkeys D) -> reasm_e2e m (group k0 D) = DErr -> rejected.
+Proof. exact (reject_malformed_pwb_packet float fcal64 E m order D T B O k0). Qed.
+Lemma e2e_reject_missing_pad_map k0 p pc wf : In k0 (gkeys D) -> reasm_e2e m (group k0 D) = DOk p ->
+  In (Pad pc, wf) (p_sent p) -> (forall pos, Maps.pad_position run (p_board p) (p_chip p) pc <> Ok pos) -> rejected.
+Proof.
+  intros I R S U. apply (reject_missing_pad_map float fcal64 E m order D T B O k0 p pc wf I R S).
+  cbn [env_e2e_m pad_pos]. destruct (Maps.pad_position run (p_board p) (p_chip p) pc); [exfalso; eapply U; eauto | |]; reflexivity.
+Qed.
+Lemma e2e_reject_missing_pad_calibration k0 p pc wf c r : In k0 (gkeys D) -> reasm_e2e m (group k0 D) = DOk p ->
+  In (Pad pc, wf) (p_sent p) -> Maps.pad_position run (p_board p) (p_chip p) pc = Ok (c, r) ->
+  pad_cal_e2e run c r = DErr -> rejected.
+Proof.
+  intros I R S Q C. apply (reject_missing_pad_calibration float fcal64 E m order D T B O k0 p pc wf c r I R S); [|exact C].
+  cbn [env_e2e_m pad_pos]. rewrite Q. reflexivity.
+Qed.
+Lemma e2e_reject_duplicate_pad_signal : ~ NoDup (pad_claims E D) -> rejected.
+Proof. exact (reject_duplicate_pad float fcal64 E m order D T B O). Qed.
+Lemma e2e_reject_malformed_trg n d : In (n, d) banks -> Names.parse_main n = Ok Names.KTrg ->
+  (forall t, Trg.trg_decode d <> Ok t) -> rejected.
+Proof.
+  intros I P U. apply (reject_malformed_trg float fcal64 E m order D T B O).
+  apply (in_decoded m) in I. unfold decode_bank_m, trg_view in I. rewrite P in I.
+  destruct (Trg.trg_decode d) as [t| |]; [exfalso; eapply U; eauto | exact I | exact I].
+Qed.
+Lemma e2e_reject_duplicate_trg l1 l2 l3 n d1 d2 : banks = l1 ++ (n, d1) :: l2 ++ (n, d2) :: l3 ->
+  Names.parse_main n = Ok Names.KTrg -> rejected.
+Proof.
+  intros S P.
+  apply (reject_duplicate_trg float fcal64 E m order D T B O (decode_banks_m m l1) (decode_banks_m m l2)
+           (decode_banks_m m l3) (trg_view d1) (trg_view d2)).
+  rewrite S, decoded_split. cbn [fst snd]. unfold decode_bank_m. rewrite P. reflexivity.
+Qed.
+Lemma e2e_reject_missing_trg : (forall n d, In (n, d) banks -> Names.parse_main n <> Ok Names.KTrg) -> rejected.
+Proof.
+  intros U. apply (reject_missing_trg float fcal64 E m order D T B O). intros t I.
+  unfold decode_banks_m in I. apply in_map_iff in I as ([n d] & Q & I). cbn [fst snd] in Q.
+  specialize (U n d I). unfold decode_bank_m in Q.
+  destruct (Names.parse_main n) as [k| |]; try discriminate. destruct k; try discriminate. apply U. reflexivity.
+Qed.
+End Rejections.
